@@ -101,13 +101,14 @@ func modelRequest(src string) (string, bool) {
 		switch t.Kind {
 		case lexer.Number:
 			v := strings.Replace(t.Value, "_", "", -1)
-			if !strings.ContainsAny(v, "xX") && strings.ContainsAny(v, ".eE") && !seenF[t.Value] {
-				seenF[t.Value] = true
+			// oracle for strconv.ParseFloat, keyed by the text handed to it (underscores removed)
+			if strings.ContainsAny(v, ".eE") && !seenF[v] {
+				seenF[v] = true
 				f, err := strconv.ParseFloat(v, 64)
 				if err != nil {
-					floats = append(floats, L(SStr(t.Value), A("err")))
+					floats = append(floats, L(SStr(v), A("err")))
 				} else {
-					floats = append(floats, L(SStr(t.Value), SUint(math.Float64bits(f))))
+					floats = append(floats, L(SStr(v), SUint(math.Float64bits(f))))
 				}
 			}
 		case lexer.String:
